@@ -161,7 +161,7 @@ class Run:
                          f"{open_keys[mech]['what']}")
         replay_paths = []
         for v in new:
-            d = os.path.join(env.VERIF, "replays", self.pid)
+            d = os.path.join(os.environ.get("PVM_EVIDENCE_DIR") or env.VERIF, "replays", self.pid)
             os.makedirs(d, exist_ok=True)
             path = os.path.join(d, canon_hash(v) + ".json")
             with open(path, "w") as f:
@@ -192,9 +192,9 @@ class Run:
             "wall_s": round(wall, 3),
             "violations": len(new),
         }
-        os.makedirs(os.path.join(env.VERIF, "evidence"), exist_ok=True)
-        with open(os.path.join(env.VERIF, "evidence", f"{self.pid}.json"),
-                  "w") as f:
+        evdir = os.environ.get("PVM_EVIDENCE_DIR") or os.path.join(env.VERIF, "evidence")
+        os.makedirs(evdir, exist_ok=True)
+        with open(os.path.join(evdir, f"{self.pid}.json"), "w") as f:
             json.dump(ev, f, indent=1, default=repr)
 
         for ln in lines:
